@@ -448,7 +448,11 @@ fn run_program<T: Cur>(mut it: Option<T>, sec: Sec, incl_opt: bool, index: usize
                 judge(&nm_, &before, &mb, &expected, &real, &after, false, out);
                 out.class.push_str(if expected.is_ok() { "ok " } else { "err " });
                 if !out.clean() {
-                    out.next = None;
+                    // a state whose only problem is its view (C08's verdict) stays available as a successor:
+                    // C09/C10 look at what one more operation does from there
+                    if !(out.c08.is_some() && out.c09.is_none() && out.c10.is_none()) {
+                        out.next = None;
+                    }
                     return;
                 }
                 if expected.is_ok() {
@@ -483,7 +487,11 @@ fn run_program<T: Cur>(mut it: Option<T>, sec: Sec, incl_opt: bool, index: usize
                 judge(&nm_, &before, &mb, &expected, &real, &after, false, out);
                 out.class.push_str(if expected.is_ok() { "ok " } else { "void " });
                 if !out.clean() {
-                    out.next = None;
+                    // a state whose only problem is its view (C08's verdict) stays available as a successor:
+                    // C09/C10 look at what one more operation does from there
+                    if !(out.c08.is_some() && out.c09.is_none() && out.c10.is_none()) {
+                        out.next = None;
+                    }
                     return;
                 }
                 if expected.is_ok() {
@@ -510,7 +518,11 @@ fn run_program<T: Cur>(mut it: Option<T>, sec: Sec, incl_opt: bool, index: usize
                 let after = snap(it.as_ref().unwrap().parsed_packet());
                 judge(&nm_, &before, &mb, &expected, &real, &after, false, out);
                 if !out.clean() {
-                    out.next = None;
+                    // a state whose only problem is its view (C08's verdict) stays available as a successor:
+                    // C09/C10 look at what one more operation does from there
+                    if !(out.c08.is_some() && out.c09.is_none() && out.c10.is_none()) {
+                        out.next = None;
+                    }
                     return;
                 }
             }
@@ -541,7 +553,11 @@ fn run_program<T: Cur>(mut it: Option<T>, sec: Sec, incl_opt: bool, index: usize
                 judge(&nm_, &before, &mb, &expected, &real, &after, false, out);
                 out.class.push_str(if expected.is_ok() { "ok " } else { "err " });
                 if !out.clean() {
-                    out.next = None;
+                    // a state whose only problem is its view (C08's verdict) stays available as a successor:
+                    // C09/C10 look at what one more operation does from there
+                    if !(out.c08.is_some() && out.c09.is_none() && out.c10.is_none()) {
+                        out.next = None;
+                    }
                     return;
                 }
             }
@@ -567,7 +583,11 @@ fn run_program<T: Cur>(mut it: Option<T>, sec: Sec, incl_opt: bool, index: usize
                     }
                 }
                 if !out.clean() {
-                    out.next = None;
+                    // a state whose only problem is its view (C08's verdict) stays available as a successor:
+                    // C09/C10 look at what one more operation does from there
+                    if !(out.c08.is_some() && out.c09.is_none() && out.c10.is_none()) {
+                        out.next = None;
+                    }
                     return;
                 }
                 if let Err(e) = caught(|| designates(it.as_ref().unwrap(), sec, i)).unwrap_or_else(|p| Err(format!("panic: {}", p))) {
